@@ -68,6 +68,25 @@ def run(res, ctx):
         A.append({"rows": a1 + a2, "inits": {}, "files": [core.to_csv(a1), core.to_csv(a2)]})
         B.append({"rows": b1 + b2, "inits": {}, "files": ([core.to_csv(b1)] if b1 else []) + [core.to_csv(b2)]})
         I.append({"rows": f1 + f2, "inits": {}, "files": [core.to_csv(f1), core.to_csv(f2)]})
+    # crafted: a security whose gains of different years cancel exactly (its total is 0, its years are not),
+    # next to other securities
+    for _ in range(15 if tier == "quick" else 150):
+        y0 = rng.choice([2018, 2019, 2020])
+        import datetime as _dt
+        def _rr(sec, y, mth, act, sh, aps):
+            d = _dt.date(y, mth, rng.randint(1, 28)).toordinal()
+            return {"sec": sec, "td": d, "sd": d, "act": act, "sh": core.D(sh), "aps": core.D(aps),
+                    "com": None, "cur": None, "rate": None, "af": None}
+        g = rng.randint(1, 40)
+        px = rng.randint(50, 90)
+        a_rows = [_rr("EVEN", y0, 1, "Buy", 2, px), _rr("EVEN", y0, 6, "Sell", 1, px + g), _rr("EVEN", y0 + 1, 6, "Sell", 1, px - g)]
+        b_rows = [_rr("QUX", y0, 2, "Buy", 5, 10), _rr("QUX", y0, 9, "Sell", 2, 10 + rng.randint(1, 9))]
+        if rng.random() < 0.4:
+            b_rows.append(_rr("QUX", y0 + 1, 3, "Sell", 9, 10))     # a failing row
+        i_rows = sorted(a_rows + b_rows, key=lambda r: r["sd"])
+        A.append({"rows": a_rows, "inits": {}})
+        B.append({"rows": b_rows, "inits": {}})
+        I.append({"rows": i_rows, "inits": {}})
     ra = corecheck.run_cases(ctx, A, render=True)
     rb = corecheck.run_cases(ctx, B, render=True)
     ri = corecheck.run_cases(ctx, I, render=True)
@@ -107,15 +126,29 @@ def run(res, ctx):
                 if ag is None or "secs" not in full:
                     continue
                 tot = Fraction(0)
+                years = collections.defaultdict(Fraction)
                 for sname, t in full["secs"].items():
+                    labels = t["footer"][8].split("\n")
                     vals = t["footer"][9].split("\n")
-                    m = re.match(r"^\s*([+-]?)\$(-?\d+(?:\.\d+)?)", vals[0])
-                    if m:
+                    for lab, val in zip(labels, vals):
+                        m = re.match(r"^\s*([+-]?)\$(-?\d+(?:\.\d+)?)", val)
+                        if not m:
+                            continue
                         v = Fraction(m.group(2))
-                        tot += -v if m.group(1) == "-" else v
+                        v = -v if m.group(1) == "-" else v
+                        if lab == "Total":
+                            tot += v
+                        else:
+                            years[lab] += v
                 if abs(ag.get("Since inception", Fraction(0)) - tot) > Fraction(1, 10 ** 9):
                     res.violation("failing-input", "input %s: aggregate 'Since inception' %s is not the sum of the securities' own table totals %s" % (tag, ag.get("Since inception"), tot),
                                   {"input": run_["hc"]})
+                # ... and year by year: every year some security's table shows is in the aggregate with the sum
+                for yk in set(years) | {k_ for k_ in ag if k_ != "Since inception"}:
+                    if abs(ag.get(yk, Fraction(0)) - years.get(yk, Fraction(0))) > Fraction(1, 10 ** 9) or (yk in years and yk not in ag):
+                        res.violation("failing-input", "input %s: aggregate figure of %s is %s, the securities' own tables add up to %s" % (tag, yk, ag.get(yk, "absent"), years.get(yk, 0)),
+                                      {"input": run_["hc"]})
+                        break
             # aggregate gains add up
             ga, gb, gi = agg_of(x["raw"]), agg_of(y["raw"]), agg_of(z["raw"])
             if ga is not None and gb is not None and gi is not None:
